@@ -11,6 +11,7 @@ Require Import EmbossV.Lex.Proofs_Line EmbossV.Lex.Proofs_Examples EmbossV.Lex.P
 Require Import EmbossV.Lex.FmtModel EmbossV.Lex.FmtProofs.
 Require Import EmbossV.Lex.FmtTyping EmbossV.Lex.FmtProofsTotal.
 Require Import EmbossV.Lex.FmtShow EmbossV.Lex.FmtProofsIdem EmbossV.Lex.FmtRetok EmbossV.Lex.FmtProofsRetok.
+Require Import EmbossV.Lex.FmtAsserts EmbossV.Lex.FmtProofsAsserts.
 
 Theorem fmt_equivb_spec : forall T o f, fmt_equivb T o f = true <-> fmt_equiv T o f.
 Proof. exact fmt_equivb_spec_proof. Qed.
@@ -126,8 +127,8 @@ Qed.
          children whose handler returns "").  The real front end guarantees it by a TOKENIZER fact: the
          Documentation patterns `-- .*` / `--$` extend to the end of the line, so no Comment token can
          follow a Documentation token on its line, and the parser then has to reduce Comment? -> (empty).
-         (checked by the harness on every parse tree of every run: tree_gwfb && asserts_ok evaluated by
-         the extracted model; and on the token lists of the real tokenizer)
+         This is now DERIVED (section "asserts_ok derived" below: asserts_ok_derived, format_total_tokenized);
+         the harness still evaluates tree_gwfb && asserts_ok on every parse tree of every run.
    [tree_gwf] = FmtModel.tree_wf (every node names a production whose right-hand side its children
    derive) + every leaf carries a terminal symbol.
    ------------------------------------------------------------------------------------------------ *)
@@ -157,6 +158,69 @@ Theorem format_total_typed : forall ws iw tbl sg, sig_ok tbl sg = true ->
   exists v, format ws iw tbl t = Some v /\
             forall s, root_sym tbl t = Some s -> exists ty, sym_ty tbl sg s = Some ty /\ has_ty v ty = true.
 Proof. exact format_total_sig_proof. Qed.
+
+(* ------------------------------------------------------------------------------------------------
+   asserts_ok DERIVED (Lex/FmtAsserts.v).  Two decidable static checks, evaluated by vm_compute on the
+   regenerated tables (FmtHInstance_C11.inst_doc_ends_line, inst_asserts_guarded):
+     [sym_ends_line T d]      every pattern of the tokenizer's table that yields symbol d passes [ends_line]
+                              (it ends in `$` or in `.*`), no literal yields d;
+     [asserts_guarded tbl d n] every assert of a handler is `assert not arg_i` with i > 0, the symbol in front of
+                              position i derives only strings ENDING with the terminal d, and every production of
+                              the symbol at i is the empty alternative (handler returns "") or STARTS with a
+                              terminal other than n.
+   With d = Documentation, n = "\n": the token after a Documentation token is the newline token of its line
+   (tokenize_doc_then_newline: ALL texts), so in a tree of the grammar over such tokens the Comment? after doc can
+   only be the empty alternative.  What is left of the hypotheses of format_total is "t is a tree of the grammar
+   whose leaves are the tokens" (the parser's contract, C08/C09; evaluated per tree: tree_gwfb, leaves = tokens).
+   ------------------------------------------------------------------------------------------------ *)
+
+(* a regex that passes the syntactic check matches, when it matches at all, up to the end of a "\n"-free line *)
+Theorem ends_line_swallows_line : forall r s n, ends_line r = true -> Forall (fun c => c <> 10%N) s ->
+  longest r s = Some n -> n = length s.
+Proof. exact longest_ends_line. Qed.
+
+(* TOKEN LEVEL, all texts: in the tokenizer model's output every token with such a symbol is immediately followed
+   by the newline token (in particular no Comment token follows a Documentation token) *)
+Theorem tokenize_doc_then_newline : forall T d s ts, sym_ends_line T d = true -> reserved d = false ->
+  tokenize T s = Toks ts -> followed_strict d newline_sym (map sym ts) = true.
+Proof. exact tokenize_sym_then_newline_proof. Qed.
+
+(* TREE LEVEL, all trees of the grammar: if a successor of d among the leaves is always n, no assert can fire *)
+Theorem asserts_ok_from_token_fact : forall tbl d n, asserts_guarded tbl d n = true ->
+  forall t, tree_gwf tbl t -> followed d n (tree_syms t) = true -> asserts_ok tbl t = true.
+Proof. exact (fun tbl d n Hg t Hw => asserts_ok_followed_proof tbl d n Hg t (proj1 Hw) (proj2 Hw)). Qed.
+
+(* the two together: asserts_ok holds for every tree of the grammar whose leaves are the tokens of a text *)
+Theorem asserts_ok_derived : forall T tbl d s ts t,
+  sym_ends_line T d = true -> reserved d = false -> asserts_guarded tbl d newline_sym = true ->
+  tokenize T s = Toks ts -> tree_gwf tbl t -> tree_syms t = map sym ts ->
+  asserts_ok tbl t = true.
+Proof. exact asserts_ok_tokenized_proof. Qed.
+
+(* NEVER FAILS without the assert hypothesis: every parse tree (tree of the grammar whose leaves are the tokens the
+   tokenizer model produces for some text) is formatted, at every indent width *)
+Theorem format_total_tokenized : forall ws iw T tbl d,
+  table_typed_ok tbl = true -> asserts_guarded tbl d newline_sym = true ->
+  sym_ends_line T d = true -> reserved d = false ->
+  forall s ts t, tokenize T s = Toks ts -> tree_gwf tbl t -> tree_syms t = map sym ts ->
+  exists v, format ws iw tbl t = Some v.
+Proof. exact format_total_tokenized_proof. Qed.
+
+Theorem format_text_total_tokenized : forall ws iw T tbl d,
+  table_typed_ok tbl = true -> asserts_guarded tbl d newline_sym = true ->
+  sym_ends_line T d = true -> reserved d = false ->
+  forall s ts t r, tokenize T s = Toks ts -> tree_gwf tbl t -> tree_syms t = map sym ts ->
+  root_sym tbl t = Some r -> sym_ty tbl (infer tbl) r = Some TStr ->
+  exists txt, format_text ws iw tbl t = Some txt.
+Proof. exact format_text_total_tokenized_proof. Qed.
+
+(* the hypotheses are satisfiable: a toy lexer (D.* -> Doc, C -> Com) and the doc-line shaped grammar *)
+Example toy_doc_example :
+  sym_ends_line toy_lex [68]%N = true /\ reserved [68]%N = false /\
+  asserts_guarded toy_doc_table [68]%N newline_sym = true /\
+  (exists ts, tokenize toy_lex [68; 32; 67]%N = Toks ts /\ tree_syms toy_doc_tree = map sym ts) /\
+  tree_gwf toy_doc_table toy_doc_tree /\ asserts_ok toy_doc_table toy_doc_tree = true.
+Proof. exact toy_doc_example_proof. Qed.
 
 (* the boolean the harness evaluates on real parse trees implies the well-formedness hypothesis *)
 Theorem tree_gwfb_sound : forall tbl t, tree_gwfb tbl t = true -> tree_gwf tbl t.
